@@ -56,7 +56,7 @@ type runOut struct {
 func runSlots(c *core.Ctx, casesFile, tag string) (map[string][]int, error) {
 	out := filepath.Join(c.Work, tag+"-slots.ndjson")
 	os.Remove(out)
-	res, err := tlc.Run(tlc.Opts{SpecDirs: listSpecDirs(c), Module: "ListCases", Config: "ListCases.cfg", Workers: 1,
+	res, err := runTLC(tlc.Opts{SpecDirs: listSpecDirs(c), Module: "ListCases", Config: "ListCases.cfg", Workers: 1,
 		Timeout: 10 * time.Minute, HeapMB: 4000, Scratch: c.Work,
 		Env: map[string]string{"VERIF_CASES": casesFile, "VERIF_OUT": out}})
 	if err != nil {
@@ -184,7 +184,7 @@ func (o *runOut) validate(c *core.Ctx) error {
 
 func (o *runOut) validateOne(c *core.Ctx, ob *engs.Obs) ([]*failure, int, error) {
 	outp := ob.Trace + ".bad"
-	res, err := tlc.Run(tlc.Opts{SpecDirs: listSpecDirs(c), Module: "ListTrace", Config: "ListTrace.cfg", Workers: 1,
+	res, err := runTLC(tlc.Opts{SpecDirs: listSpecDirs(c), Module: "ListTrace", Config: "ListTrace.cfg", Workers: 1,
 		Timeout: 25 * time.Minute, HeapMB: 4000, Scratch: c.Work,
 		Env: map[string]string{"VERIF_TRACE": ob.Trace, "VERIF_OUT": outp}})
 	if err == nil && res.Violation {
